@@ -211,9 +211,16 @@ fn c01(seed: u64, case: u64, out: &Out) {
     if !twice.is_empty() {
         out.end(case, Verdict::Violated, &format!("C01/task-executed-twice/{}", if submitters > 1 { "multi-submitter" } else { "single-submitter" }), true, &fp, obs, &format!("{} tasks ran more than once, e.g. uid {}", twice.len(), twice[0]));
     } else if !never.is_empty() {
+        if std::env::var("VERIF_DEBUG_STALL").is_ok() {
+            eprintln!("STALLED pid {}", std::process::id());
+            std::thread::sleep(Duration::from_secs(120));
+        }
         let alive = probes_sent > 0 && probes_ran * 2 >= probes_sent.saturating_sub(2);
         let kind = if alive { "task-stranded-while-runtime-keeps-scheduling" } else { "runtime-stopped-scheduling-with-tasks-outstanding" };
-        out.end(case, Verdict::Violated, &format!("C01/{kind}/{}", if submitters > 1 { "multi-submitter" } else { "single-submitter" }), true, &fp, obs,
+        // a stalled runtime is attributed by what makes worker coroutines migrate between loop threads: several loops + suspending tasks
+        let suspending = matches!(body, Body::Suspend | Body::Delay1ms);
+        let ctx = if !alive && loops > 1 && suspending { "multi-loop-with-suspending-tasks" } else if submitters > 1 { "multi-submitter" } else { "single-submitter" };
+        out.end(case, Verdict::Violated, &format!("C01/{kind}/{ctx}"), true, &fp, obs,
             &format!("{} of {total} tasks never ran (e.g. uid {}), no new execution for 3 s; heartbeat probes executed {probes_ran}/{probes_sent}", never.len(), never[0]));
     } else {
         out.end(case, Verdict::Held, "", nontrivial, &fp, obs, "");
@@ -268,7 +275,12 @@ fn c02(seed: u64, case: u64, out: &Out) {
         ths.push(std::thread::spawn(move || {
             for k in 0..per {
                 let uid = j * 10_000 + k;
-                let kind = r.below(6); // 0 instant, 1 busy 1 ms, 2 delay 5 ms, 3 panic static, 4 panic formatted, 5 slow (80 ms) and joined twice
+                let mut kind = r.below(6); // 0 instant, 1 busy 1 ms, 2 delay 5 ms, 3 panic static, 4 panic formatted, 5 slow (80 ms) and joined twice
+                if loops > 1 && kind == 2 {
+                    // with several loops a suspended worker coroutine can be stolen by another loop thread, which is a known
+                    // memory-safety finding of its own (see C22/C01 in known_findings.json): keep it out of this property's verdict
+                    kind = 1;
+                }
                 let name = format!("c02-{uid}-{}", r.next_u64());
                 let name2 = name.clone();
                 let h = EventLoops::submit_task(
@@ -287,7 +299,12 @@ fn c02(seed: u64, case: u64, out: &Out) {
                                 }
                             }
                             5 => {
-                                if let Some(s) = SchedulableSuspender::current() {
+                                if loops > 1 {
+                                    let t = Instant::now();
+                                    while t.elapsed() < Duration::from_millis(80) {
+                                        std::hint::spin_loop();
+                                    }
+                                } else if let Some(s) = SchedulableSuspender::current() {
                                     s.delay(Duration::from_millis(80));
                                 }
                             }
@@ -1060,7 +1077,7 @@ fn c12(seed: u64, case: u64, out: &Out) {
     let mut rng = Rng::for_case(seed ^ 0xC12, case);
     let loops = if case % 3 == 2 { 2 } else { 1 };
     let n = rng.usize(4, 40);
-    let delayed_pct = *rng.pick(&[0u64, 30, 60]);
+    let delayed_pct = if loops > 1 { 0 } else { *rng.pick(&[0u64, 30, 60]) }; // suspended workers + several loops: see the coroutine-migration finding
     let workers = *rng.pick(&[1usize, 2, 8]);
     out.begin(case, jobj! {"event_loops" => loops, "tasks_before_stop" => n, "percent_suspended_in_a_delay_when_stop_begins" => delayed_pct, "pool_max_size" => workers,
         "what" => "submit tasks, then EventLoops::stop while a second thread keeps submitting"});
